@@ -77,6 +77,50 @@ def trl_scenario(rng, ctype, F):
     return sc, [("R", Rp), ("L", Lp)]
 
 
+def near_trl_scenario(rng, ctype, F):
+    """three standards and two unknowns that look like TRL but are not
+    (they must be solved by the general method): the reflect carries the
+    unknown on one port only, or the line is not matched / not reciprocal"""
+    sc, unk = trl_scenario(rng, ctype, F)
+    by = {}
+    for st in sc.stds:
+        if st.is_through():
+            by["T"] = st
+        elif st.is_diag():
+            by["R"] = st
+        else:
+            by["L"] = st
+    var = int(rng.integers(0, 4))
+    known = calgen.rand_param(rng, F, 0.8)
+    if var == 0:
+        # unknown reflect on one port, a different known reflect on the other
+        k = int(rng.integers(0, 2))
+        by["R"].sp[k][k] = known
+    elif var == 1:
+        # line with known, non-zero reflections
+        by["L"].sp[0][0] = calgen.rand_param(rng, F, 0.3, allow_const=False)
+        by["L"].sp[1][1] = calgen.rand_param(rng, F, 0.3, allow_const=False)
+    elif var == 2:
+        # non-reciprocal line: the unknown in one direction only
+        by["L"].sp[1][0] = Param("scalar", np.full(
+            F, np.mean(by["L"].sp[0][1].values) * 0.9, dtype=complex))
+    else:
+        # the "through" is a known line with a little mismatch
+        by["T"].sp[0][0] = calgen.rand_param(rng, F, 0.2, allow_const=False)
+        by["T"].sp[0][1] = Param("scalar", np.full(F, 0.95 * np.exp(0.3j)))
+        by["T"].sp[1][0] = by["T"].sp[0][1]
+    for st in sc.stds:
+        st.entry = "mapped_matrix" if st.entry in ("through", "double_reflect") \
+            and not (st.is_through() if st.entry == "through" else st.is_diag()) \
+            else st.entry
+        if st.entry == "through" and not st.is_through():
+            st.entry = "line"
+    # tighter guesses: these go through Levenberg-Marquardt
+    for name, prm in unk:
+        prm.guess = guess_param(rng, prm.values, 0.05, F)
+    return sc, unk, var
+
+
 def lm_scenario(rng, ctype, r, c, F, radius):
     for _ in range(8):
         sc = calgen.Scenario(ctype, r, c, F, rng)
@@ -196,6 +240,19 @@ def work(chunk_id, payload):
         cases.append((cid, s.text()))
         meta[cid] = ("trl", sc, unk, L, duts, dict(tol=1e-6, kappa=10.0,
                                                   iter=30, corr=None), {})
+    for k in range(max(1, n_trl // 2)):
+        ctype = ["T8", "U8", "TE10", "UE10"][(chunk_id + k) % 4]
+        F = int(rng.choice([1, 2, 3]))
+        sc, unk, var = near_trl_scenario(rng, ctype, F)
+        duts = sc.rand_dut()
+        settings = dict(p_tol=1e-8, iter=100)
+        s, L = emit(sc, unk, settings, duts)
+        cid = "ntrl%d_%d" % (chunk_id, k)
+        cases.append((cid, s.text()))
+        meta[cid] = ("lm", sc, unk, L, duts,
+                     dict(tol=1e-8, kappa=30.0, iter=100, radius=0.05,
+                          corr=None, kinds=["near_trl_variant_%d" % var]),
+                     settings)
     for k in range(n_lm):
         ctype = physics.TYPES[(chunk_id * 5 + k) % 8]
         p = int(rng.choice([1, 2, 2, 2, 3]))
